@@ -510,6 +510,14 @@ def random_trace(rng, const, flavour, length, ops, scratch=None):
             events.append({'ev': e, 'post': None, 'error': f'{type(ex).__name__}: {ex}'})
             break
         ret = extra[1] if (extra is not None and extra[0] == 'ret') else [[], []]
+        if extra is not None and extra[0] == 'df':
+            try:
+                msg = check_df(extra[1], project(heap[extra[2]]), flavour)
+            except ProjectionError as pe:
+                msg = str(pe)
+            if msg:
+                events.append({'ev': e, 'post': None, 'error': f'projection/rows: DataFrame export: {msg}'})
+                break
         try:
             post = project_heap(heap, maxobj)
         except ProjectionError as pe:
